@@ -726,7 +726,7 @@ impl Context {
                     _ => panic!(),
                 };
 
-                let fields: Vec<_> = def
+                let mut fields: Vec<_> = def
                     .fields
                     .iter()
                     .map(|f| {
@@ -755,6 +755,13 @@ impl Context {
                         }
                     })
                     .try_collect()?;
+                if self.keep_unknown_fields.contains(did) {
+                    // structs generated with `keep_unknown_fields` carry one more field
+                    fields.push((
+                        "_unknown_fields: ::pilota::LinkedBytes::new()".to_string(),
+                        false,
+                    ));
+                }
                 let is_const = fields.iter().all(|(_, is_const)| *is_const);
                 let fields = fields.into_iter().map(|f| f.0).join(",");
 
